@@ -16,8 +16,13 @@ import (
 func TestMC_Debug(t *testing.T) {
 	only := os.Getenv("MC_ONLY")
 	cfgs, _ := lifeSchedConfigs("DBG", lifecycleCheck)
-	if os.Getenv("MC_DEBUG_SET") == "C01" {
+	switch os.Getenv("MC_DEBUG_SET") {
+	case "C01":
 		cfgs, _ = inSchedConfigs()
+	case "C06":
+		cfgs, _ = shutSchedConfigs()
+	case "C18":
+		cfgs, _ = faultSchedConfigs()
 	}
 	for _, c := range cfgs {
 		if only == "" || !strings.Contains(c.Name, only) {
